@@ -28,6 +28,7 @@ import (
 	"os"
 	"os/exec"
 	"path/filepath"
+	"regexp"
 	"sort"
 	"strconv"
 	"strings"
@@ -398,9 +399,37 @@ func c12GenPool(r *mon.Rng, kind string) c11Pool {
 	for len(p.Docs) < 6 {
 		p.Docs = append(p.Docs, mon.Pick(r, c11CuratedDocs[:18]))
 	}
+	// the same documents with keys spelled through escape sequences (every spelling differs)
+	for i, n := 0, len(p.Docs); i < n; i++ {
+		if r.Chance(1, 3) {
+			d := p.Docs[i]
+			d.Text = c12EscapeKeys(r, d.Text)
+			p.Docs = append(p.Docs, d)
+		}
+	}
 	p.Enums = []string{c11CuratedEnums[0], c11CuratedEnums[1], c11CuratedEnums[3]}
 	p.Regexes = []string{c11CuratedRegexes[0], c11CuratedRegexes[2], c11CuratedRegexes[4]}
 	return p
+}
+
+var c12KeyRe = regexp.MustCompile(`"([A-Za-z0-9_ -]+)"(\s*):`)
+
+// c12EscapeKeys re-spells object keys of a JSON text: one character of the key becomes a \uXXXX
+// escape (which one is random), the value is unchanged.
+func c12EscapeKeys(r *mon.Rng, text string) string {
+	return c12KeyRe.ReplaceAllStringFunc(text, func(m string) string {
+		sub := c12KeyRe.FindStringSubmatch(m)
+		key := sub[1]
+		if r.Chance(1, 4) {
+			return m
+		}
+		i := r.Intn(len(key))
+		hex := fmt.Sprintf("%04x", key[i])
+		if r.Bool() {
+			hex = strings.ToUpper(hex)
+		}
+		return `"` + key[:i] + `\u` + hex + key[i+1:] + `"` + sub[2] + ":"
+	})
 }
 
 func c12GraphFamily(r *mon.Rng, wantAllOf bool, docs *[]c11Doc) c11Family {
@@ -434,6 +463,9 @@ func c12GraphFamily(r *mon.Rng, wantAllOf bool, docs *[]c11Doc) c11Family {
 			v, _ = dg.Mutate(v)
 		}
 		*docs = append(*docs, c11Doc{Text: v.Text()})
+		if k < 2 {
+			*docs = append(*docs, c11Doc{Text: model.DocStyle{Escapes: r.Fork()}.Render(v)})
+		}
 	}
 	return fam
 }
